@@ -22,7 +22,14 @@ package main
 // Registered over the entry of models_c11.go (init() of this file runs later:
 // the go tool passes files in file-name order, "models_c11.go" < "models_c11b.go").
 
-import "golang.org/x/tools/go/ssa"
+import (
+	"go/token"
+	"go/types"
+	"os"
+	"strings"
+
+	"golang.org/x/tools/go/ssa"
+)
 
 func modelC11bOpen(ex *Exec, fn *ssa.Function, args []Value, caller *Frame) (Value, *goPanic) {
 	key, gp := c11Key(ex, args[0], caller)
@@ -52,6 +59,212 @@ func modelC11bOpen(ex *Exec, fn *ssa.Function, args []Value, caller *Frame) (Val
 	return modelC11Open(ex, fn, args, caller)
 }
 
+// ---------- ideal secp256k1 (DESIGN.md §3.5: ECDH with commutativity) ----------
+//
+// Used by the three-act handshake entry. Scalars and points are OPAQUE; their
+// identity is carried inside the ordinary Go values, so copies made by real
+// code (FieldVal.Set, struct assignment, AsJacobian, NewPublicKey) keep it:
+//
+//   PrivateKey.Key.n[0..7]   = the 32 key bytes, big-endian, 4 per limb (no reduction mod N:
+//                              the harness assumes the bytes denote a value in [1, N-1])
+//   FieldVal.n[0..7], n[8]   = 256-bit payload, kind tag
+//       kind 1: point a*G,      x = (a, 1), y = 0
+//       kind 2: point a*b*G,    x = (lo, 2), y = (hi, 2) with {lo, hi} = {a, b} ordered by term
+//                               id, i.e. ScalarMult(a, b*G) and ScalarMult(b, a*G) are the SAME value
+//   SerializeCompressed      = pubser(a) resp. dhser(lo, hi): uninterpreted 33-byte strings
+//   ParsePubKey              = inverse of pubser on bytes that literally are a pubser(a);
+//                              anything else (a manipulated key) is unsupported -> INCONCLUSIVE
+//
+// Everything else of the ECDH path (keychain.PrivKeyECDH.ECDH, AsJacobian,
+// NewPublicKey, sha256) runs as ordinary code.
+
+const (
+	c11bKindPub = 1
+	c11bKindDH  = 2
+)
+
+func c11bFieldVal(payload *Term, kind uint64) Value {
+	n := make([]Value, 10)
+	for i := 0; i < 8; i++ {
+		n[i] = Extract(32*(8-i)-1, 32*(7-i), payload)
+	}
+	n[8] = BV(kind, 32)
+	n[9] = BV(0, 32)
+	return &StructV{F: []Value{&ArrayV{E: n}}}
+}
+
+func c11bZeroField() Value {
+	n := make([]Value, 10)
+	for i := range n {
+		n[i] = BV(0, 32)
+	}
+	return &StructV{F: []Value{&ArrayV{E: n}}}
+}
+
+func c11bLimbs(v Value, cnt int) []*Term {
+	arr := v.(*StructV).F[0].(*ArrayV)
+	r := make([]*Term, cnt)
+	for i := 0; i < cnt; i++ {
+		r[i] = arr.E[i].(*Term)
+	}
+	return r
+}
+
+// c11bField decodes a carrier; kind 0 = not a carrier.
+func c11bField(v Value) (payload *Term, kind uint64) {
+	l := c11bLimbs(v, 10)
+	if !l[8].IsConst() || !l[9].IsConst() || l[9].Val.Sign() != 0 {
+		return nil, 0
+	}
+	k := l[8].Val.Uint64()
+	if k != c11bKindPub && k != c11bKindDH {
+		return nil, 0
+	}
+	return c11Cat(l[:8]), k
+}
+
+func c11bNote(ex *Exec) {
+	ex.assumptions["secp256k1 idealised: private keys are their 32 bytes (assumed in [1, N-1]); a*G and a*(b*G) are opaque values, a*(b*G) = b*(a*G) by construction; SerializeCompressed = uninterpreted pubser(a) / dhser({a,b}); ParsePubKey inverts pubser on unmodified bytes only"] = true
+}
+
+func c11bType(fn *ssa.Function, name string) types.Type {
+	m := fn.Pkg.Type(name)
+	if m == nil {
+		panic(unsupported("secp256k1 model: type " + name + " not found"))
+	}
+	return m.Type()
+}
+
+func modelC11bPrivFromBytes(ex *Exec, fn *ssa.Function, args []Value, caller *Frame) (Value, *goPanic) {
+	b := c11Bytes(ex, args[0])
+	if len(b) != 32 {
+		panic(unsupported("secp256k1 model: PrivKeyFromBytes needs 32 bytes"))
+	}
+	n := make([]Value, 8)
+	for i := range n {
+		n[i] = c11Cat(b[4*i : 4*i+4])
+	}
+	t := c11bType(fn, "PrivateKey")
+	v := &StructV{F: []Value{&StructV{F: []Value{&ArrayV{E: n}}}}}
+	c11bNote(ex)
+	return &PtrV{Obj: ex.newObject(t, v, "secp256k1.PrivateKey")}, nil
+}
+
+func c11bNewPub(ex *Exec, fn *ssa.Function, a *Term) Value {
+	t := c11bType(fn, "PublicKey")
+	v := &StructV{F: []Value{c11bFieldVal(a, c11bKindPub), c11bZeroField()}}
+	return &PtrV{Obj: ex.newObject(t, v, "secp256k1.PublicKey")}
+}
+
+func modelC11bPubKey(ex *Exec, fn *ssa.Function, args []Value, caller *Frame) (Value, *goPanic) {
+	v, gp := ex.load(args[0].(*PtrV), token.NoPos, caller)
+	if gp != nil {
+		return nil, gp
+	}
+	a := c11Cat(c11bLimbs(v.(*StructV).F[0], 8))
+	c11bNote(ex)
+	return c11bNewPub(ex, fn, a), nil
+}
+
+func modelC11bScalarMult(ex *Exec, fn *ssa.Function, args []Value, caller *Frame) (Value, *goPanic) {
+	kv, gp := ex.load(args[0].(*PtrV), token.NoPos, caller)
+	if gp != nil {
+		return nil, gp
+	}
+	pv, gp := ex.load(args[1].(*PtrV), token.NoPos, caller)
+	if gp != nil {
+		return nil, gp
+	}
+	a := c11Cat(c11bLimbs(kv, 8))
+	b, kind := c11bField(pv.(*StructV).F[0])
+	if kind != c11bKindPub {
+		panic(unsupported("secp256k1 model: ScalarMultNonConst on a point that is not a*G"))
+	}
+	lo, hi := a, b
+	if hi.ID < lo.ID {
+		lo, hi = hi, lo
+	}
+	one := c11bZeroField()
+	one.(*StructV).F[0].(*ArrayV).E[0] = BV(1, 32)
+	res := &StructV{F: []Value{c11bFieldVal(lo, c11bKindDH), c11bFieldVal(hi, c11bKindDH), one}}
+	c11bNote(ex)
+	return nil, ex.store(args[2].(*PtrV), res, token.NoPos, caller)
+}
+
+func modelC11bToAffine(ex *Exec, fn *ssa.Function, args []Value, caller *Frame) (Value, *goPanic) {
+	v, gp := ex.load(args[0].(*PtrV), token.NoPos, caller)
+	if gp != nil {
+		return nil, gp
+	}
+	if _, kind := c11bField(v.(*StructV).F[0]); kind == 0 {
+		panic(unsupported("secp256k1 model: ToAffine on a point not produced by the model"))
+	}
+	return nil, nil
+}
+
+func modelC11bSerialize(ex *Exec, fn *ssa.Function, args []Value, caller *Frame) (Value, *goPanic) {
+	p := args[0].(*StructV)
+	x, kind := c11bField(p.F[0])
+	var out *Term
+	switch kind {
+	case c11bKindPub:
+		out = UF("pubser", SBV(264), x)
+	case c11bKindDH:
+		y, _ := c11bField(p.F[1])
+		out = UF("dhser", SBV(264), x, y)
+	default:
+		panic(unsupported("secp256k1 model: SerializeCompressed of a key not produced by the model"))
+	}
+	s := ex.makeSlice(types.Typ[types.Uint8], 33, 33)
+	c11Write(s, c11Split(out, 33))
+	c11bNote(ex)
+	return s, nil
+}
+
+func modelC11bParsePubKey(ex *Exec, fn *ssa.Function, args []Value, caller *Frame) (Value, *goPanic) {
+	b := c11Bytes(ex, args[0])
+	if len(b) == 33 {
+		if t := c11Cat(b); t.Op == OpUF && strings.HasPrefix(t.Name, "pubser") && len(t.Args) == 1 {
+			c11bNote(ex)
+			return &TupleV{E: []Value{c11bNewPub(ex, fn, t.Args[0]), &IfaceV{}}}, nil
+		}
+	}
+	panic(unsupported("secp256k1 model: ParsePubKey of bytes that are not literally a serialised model key (manipulated keys are outside)"))
+}
+
+// c11bSecpWanted: the secp256k1 model replaces real curve code, which other
+// properties execute concretely; it is registered only for the brontide
+// package (or VERIF_C11_SECP=1).
+func c11bSecpWanted() bool {
+	if v := os.Getenv("VERIF_C11_SECP"); v != "" {
+		return v == "1"
+	}
+	dir, pkg := "", ""
+	for i, a := range os.Args {
+		if i+1 < len(os.Args) {
+			switch a {
+			case "-dir":
+				dir = os.Args[i+1]
+			case "-pkg":
+				pkg = os.Args[i+1]
+			}
+		}
+	}
+	full := strings.TrimRight(dir, "/") + "/" + strings.TrimPrefix(pkg, "./")
+	full = strings.TrimRight(strings.TrimSuffix(full, "."), "/")
+	return strings.HasSuffix(full, "/brontide")
+}
+
 func init() {
 	models["(*golang.org/x/crypto/chacha20poly1305.chacha20poly1305).open"] = modelC11bOpen
+	if !c11bSecpWanted() {
+		return
+	}
+	const secp = "github.com/decred/dcrd/dcrec/secp256k1/v4."
+	models[secp+"PrivKeyFromBytes"] = modelC11bPrivFromBytes
+	models["(*"+secp+"PrivateKey).PubKey"] = modelC11bPubKey
+	models[secp+"ScalarMultNonConst"] = modelC11bScalarMult
+	models["(*"+secp+"JacobianPoint).ToAffine"] = modelC11bToAffine
+	models["("+secp+"PublicKey).SerializeCompressed"] = modelC11bSerialize
+	models[secp+"ParsePubKey"] = modelC11bParsePubKey
 }
